@@ -581,6 +581,8 @@ fn short(v: &[f32]) -> Vec<f32> {
 // one program
 // ------------------------------------------------------------------------------------------------
 
+static SIG_FILTER: std::sync::OnceLock<String> = std::sync::OnceLock::new();
+
 const HOSTILE_KEYS: [&str; 6] = ["emb:k0", "emb:k1", "", "a:b", "ключ", "coll:c0:emb:k0"];
 
 struct Ctx<'a> {
@@ -605,6 +607,12 @@ impl<'a> Ctx<'a> {
             eprintln!("  VIOLATION {} — {}", sig, detail);
         }
         self.r.count(&format!("violation[{}]", sig), 1);
+        if let Some(f) = SIG_FILTER.get() {
+            // development aid (--sig-filter): keep only witnesses of matching signatures
+            if !sig.contains(f.as_str()) {
+                return;
+            }
+        }
         self.r.violation(sig, d, json!({"part": self.part, "case_seed": self.case_seed}));
     }
     fn eval(&mut self, nontrivial: bool) {
@@ -667,7 +675,9 @@ fn judged_search(
             judge_common(&res, space, q, k, metric, filter).map(|_| ())
         });
         if let Err(b) = verdict {
-            cx.violation(format!("cached:{}:{}", api, b.what), format!("index cached and data unchanged since; {}", b.detail));
+            // the filtered wrappers only filter the answer of the underlying cached search
+            let sig_api = if b.what == "filter-mismatch" { api } else if slot_kind == "default" { "search_similar" } else { "search_in_collection" };
+            cx.violation(format!("cached:{}:{}", sig_api, b.what), format!("{}: index cached and data unchanged since; {}", api, b.detail));
         }
         return;
     }
@@ -700,7 +710,8 @@ fn judged_search(
     if post_filter && b.what == "too-few-results" {
         if let Some(res) = &res_opt {
             if res.is_empty() || judge_exact(res, space, q, res.len(), metric, filter).is_ok() {
-                cx.violation(format!("exact:{}:post-filter-returns-fewer-than-k-matching", api), b.detail);
+                let base = api.split('[').next().unwrap_or(api);
+                cx.violation(format!("exact:{}:post-filter-returns-fewer-than-k-matching", base), format!("{}: {}", api, b.detail));
                 return;
             }
         }
@@ -732,6 +743,16 @@ fn judged_search(
                     res_opt = r2;
                     b = b2;
                 }
+            }
+        }
+    }
+    if post_filter && b.what == "too-few-results" {
+        // (the answer after the invalidation)
+        if let Some(res) = &res_opt {
+            if res.is_empty() || judge_exact(res, space, q, res.len(), metric, filter).is_ok() {
+                let base = api.split('[').next().unwrap_or(api);
+                cx.violation(format!("exact:{}:post-filter-returns-fewer-than-k-matching", base), format!("{}: {}", api, b.detail));
+                return;
             }
         }
     }
@@ -1470,6 +1491,9 @@ fn main() {
     let mut total = Report::new();
     total.max_samples = 4;
     let verbose = args.extra_u64("verbose", 0) > 0;
+    if let Some(f) = args.extra.get("sig-filter") {
+        let _ = SIG_FILTER.set(f.clone());
+    }
     let scratch_base = args.scratch.clone();
 
     let mut single = false;
